@@ -271,6 +271,80 @@ def additivity_check(c):
     return None
 
 
+LEDGER = '''2020-01-01 open Assets:Cash
+2020-01-01 open Assets:Bank
+2020-01-02 note Assets:Cash "alpha"
+2020-01-03 note Assets:Cash "beta"
+2020-01-04 note Assets:Bank "alpha"
+2020-01-05 note Assets:Bank "alpha"
+2020-01-06 event "location" "Paris"
+2020-01-07 event "location" "Rome"
+2020-01-08 event "employer" "Paris"
+2020-02-01 * "A" "x"
+  Assets:Cash  1 USD
+  Assets:Bank -1 USD
+2020-02-02 * "B" "x"
+  Assets:Cash  2 USD
+  Assets:Bank -2 USD
+'''
+
+
+def typed_table_grouping():
+    """GROUP BY / ORDER BY on the typed directive tables, whose columns are attribute getters: two columns of equal
+    datatype must not be confused (finding D3). Oracle: grouping computed in Python from the loaded entries."""
+    import collections
+    import os
+    import tempfile
+    from beancount.core import data
+    with tempfile.NamedTemporaryFile('w', suffix='.beancount', delete=False) as f:
+        f.write(LEDGER)
+        path = f.name
+    bad = []
+    n = 0
+    try:
+        conn = impl.beanquery.connect('beancount:' + path)
+        entries = conn.tables['entries'].entries if hasattr(conn.tables['entries'], 'entries') else None
+        from beancount import loader
+        entries, _, _ = loader.load_file(path)
+        notes = [e for e in entries if isinstance(e, data.Note)]
+        events = [e for e in entries if isinstance(e, data.Event)]
+        txns = [e for e in entries if isinstance(e, data.Transaction)]
+        specs = [('notes', notes, 'account', 'comment'), ('notes', notes, 'comment', 'account'),
+                 ('events', events, 'type', 'description'), ('events', events, 'description', 'type'),
+                 ('transactions', txns, 'payee', 'narration'), ('transactions', txns, 'narration', 'payee')]
+        for table, objs, key, other in specs:
+            n += 2
+            want = collections.OrderedDict()
+            for o in objs:
+                want[getattr(o, key)] = want.get(getattr(o, key), 0) + 1
+            try:
+                got = conn.execute(f'SELECT {key}, count(*) FROM #{table} GROUP BY {key}').fetchall()
+                if got != list(want.items()):
+                    bad.append((f'SELECT {key}, count(*) FROM #{table} GROUP BY {key}', got, list(want.items())))
+            except Exception as e:  # noqa: BLE001
+                bad.append((f'SELECT {key}, count(*) FROM #{table} GROUP BY {key}', repr(e), list(want.items())))
+            # a target not covered by GROUP BY must be rejected, not silently grouped by another column
+            try:
+                got = conn.execute(f'SELECT {other}, count(*) FROM #{table} GROUP BY {key}').fetchall()
+                bad.append((f'SELECT {other}, count(*) FROM #{table} GROUP BY {key}', got, 'CompilationError (target not covered by GROUP BY)'))
+            except impl.beanquery.CompilationError:
+                pass
+            except Exception as e:  # noqa: BLE001
+                bad.append((f'SELECT {other}, count(*) FROM #{table} GROUP BY {key}', repr(e), 'CompilationError'))
+            # ORDER BY a non-selected column of the same datatype
+            n += 1
+            want_o = [getattr(o, key) for o in sorted(objs, key=lambda o: getattr(o, other))]
+            try:
+                got = [r[0] for r in conn.execute(f'SELECT {key} FROM #{table} ORDER BY {other}').fetchall()]
+                if got != want_o:
+                    bad.append((f'SELECT {key} FROM #{table} ORDER BY {other}', got, want_o))
+            except Exception as e:  # noqa: BLE001
+                bad.append((f'SELECT {key} FROM #{table} ORDER BY {other}', repr(e), want_o))
+    finally:
+        os.unlink(path)
+    return n, bad
+
+
 def run(tier, rng):
     n = 2000 if tier == 'quick' else 30000
     cases = [gen_case(rng) for _ in range(n)]
@@ -314,8 +388,12 @@ def run(tier, rng):
             meta_bad += 1
             violations.append(core.Violation('additivity', f'{r} on rows {c["rows"]}', {'case': c, 'what': r},
                                              signature='additivity:' + repr(c['rows'])[:200]))
+    nt, tbad = typed_table_grouping()
+    for q, got, want in tbad[:2]:
+        violations.append(core.Violation('typed-table-grouping', f'{q}: got {got}, expected {want}',
+                                         {'query': q, 'got': got, 'expected': want, 'ledger': LEDGER}, signature='typed:' + q))
     cov = {
-        'evaluations': len(cases), 'distinct_nontrivial': nontrivial,
+        'evaluations': len(cases) + nt, 'distinct_nontrivial': nontrivial, 'typed_table_checks': nt,
         'rule': 'random aggregate SELECTs: 0-3 grouping keys (expressions of depth<=2; referenced by position / output name / '
                 'expression; visible or hidden; explicit or implicit GROUP BY), 0-3 aggregate targets (count(*), count(x), sum over '
                 'int/decimal/bool, first, last, min, max over every type; arithmetic over aggregates), WHERE, HAVING, ORDER BY incl. hidden '
